@@ -220,24 +220,7 @@ func getFieldValueByNameFromStruct(identName string, structValue reflect.Value) 
 	svk := structValue.Kind()
 
 	if svk == reflect.Map {
-		for _, e := range structValue.MapKeys() {
-			mks, ok := e.Interface().(string)
-			if !ok {
-				if reflect.TypeOf(e.Interface()).ConvertibleTo(reflect.TypeOf("")) {
-					mksTemp := reflect.ValueOf(e.Interface()).Convert(reflect.TypeOf("")).Interface()
-					mks, ok = mksTemp.(string)
-					if !ok || mks == "" {
-						continue
-					}
-				} else {
-					continue
-				}
-			}
-
-			if !strings.EqualFold(mks, identName) {
-				continue
-			}
-
+		if e, found := findMapKey(structValue, identName); found {
 			return convertToDecimalIfNumber(structValue.MapIndex(e).Interface()), true
 		}
 		return nil, false
@@ -292,4 +275,39 @@ func doForMapPerKey(valueThatShouldBeMap any, doFunc func(keyAsString string, ke
 			doFunc(mks, e, v)
 		}
 	}
+}
+
+// findMapKey returns the key of the map m that matches identName: the key that is exactly equal if there
+// is one, otherwise the smallest of the keys that are equal under case folding, so that the answer does
+// not depend on the iteration order of the map.
+func findMapKey(m reflect.Value, identName string) (key reflect.Value, found bool) {
+	var bestName string
+	for _, e := range m.MapKeys() {
+		mks, ok := e.Interface().(string)
+		if !ok {
+			if reflect.TypeOf(e.Interface()).ConvertibleTo(reflect.TypeOf("")) {
+				mksTemp := reflect.ValueOf(e.Interface()).Convert(reflect.TypeOf("")).Interface()
+				mks, ok = mksTemp.(string)
+				if !ok || mks == "" {
+					continue
+				}
+			} else {
+				continue
+			}
+		}
+
+		if mks == identName {
+			return e, true
+		}
+
+		if !strings.EqualFold(mks, identName) {
+			continue
+		}
+
+		if !found || mks < bestName {
+			key, bestName, found = e, mks, true
+		}
+	}
+
+	return
 }
